@@ -42,10 +42,15 @@ THEOREMS = [
     '~ ABis .. /\\ ~ AbsBlind grid_alg g_visible_absolute gout_eq glay_eq   [grid_alg = compute_grid_layout as a resumption, Model/GridAlg.v, K-exact against the event trace]',
     'C06_grid_algorithm_abs_blind_lines : (forall ab <= g_visible_absolute, Forall2 (a = b \\/ (ab a /\\ ab b /\\ same grid_row /\\ same grid_column)) st st\' -> '
     'ABis (abmask ab st) (grid_alg s st i) (grid_alg s st\' i)) /\\ (forall r c, AbsBlind grid_alg (ab_lines r c) gout_eq glay_eq)',
-    'C06_grid_engine_instance : the conclusion of C06_abs_blind_engine for engines of grid containers and leaves, ab = box-generating absolute on lines (r, c)',
+    'C06_grid_engine_instance_partial : the conclusion of C06_abs_blind_engine for engines of grid containers and leaves, ab = box-generating absolute on lines (r, c)',
     'C06_abs_blind_engine_keyed : AbsBlindK algo ab key oeq leq -> asimK t t\' -> memo f t i = Some (o, t1) -> memo f\' t\' i = Some (o\', t1\') -> asimK t1 t1\' /\\ (ab (style t) = false -> oeq o o\');  AbsBlind -> AbsBlindK',
     'C06_grid_algorithm_abs_blind_keyed : AbsBlindK grid_alg g_visible_absolute (fun s => (gs_row s, gs_column s)) gout_eq glay_eq',
-    'C06_taffy_engine_instance : AbsChildLocal abs_child -> the keyed conclusion for engines of block, flex, grid containers and leaves (taffy_algo), ab = box-generating absolute, key = grid lines',
+    'C06_taffy_engine_instance_partial : AbsChildLocal abs_child -> the keyed conclusion for engines of block, flex, grid containers and leaves (taffy_algo), ab = box-generating absolute, key = grid lines',
+    'C06_taffy_layout_pass_partial, C06_taffy_layout_passes_partial (audit 7b) : AbsChildLocal abs_child -> asimK t t\' -> root not absolute -> taffy_compute_root / taffy_passes '
+    '(what `vh taffytree` evaluates) = Some on both sides -> asimK of the resulting trees',
+    'C06_bl_engine_real_instance_partial (audit 7b) : the conclusion of C06_abs_blind_engine_partial for bl_memo block_pre abs_child_block, the engine `vh blocktree` runs',
+    'computed instances (audit 7b): C06_bl_engine_real_example, C06_grid_algorithm_abs_blind_lines_example, C06_grid_algorithm_abs_blind_refuted_no_panic, '
+    'C06_taffy_engine_example (absolute flex container vs bare absolute leaf inside a GRID, same lines), C06_taffy_layout_passes_example (two passes)',
 ]
 
 
@@ -98,7 +103,7 @@ def run(rep, tier, seed, replay=None):
         GA.gridalg_k(rep, 'C06', binp, seed + 6161, 1200 if escalate else 400, family=2, payload_is_broken=False)
         GA.abs_witness(rep, 'C06', binp)
         # ---- K6 (wave 6): WHOLE TREES mixing block / flex / grid containers and leaves, every tree with a position:absolute node: the
-        #      engine C06_taffy_engine_instance is about (Model/TaffyEngine.v taffy_algo with the real dispatch / leaf and block's real absolute
+        #      engine C06_taffy_engine_instance_partial is about (Model/TaffyEngine.v taffy_algo with the real dispatch / leaf and block's real absolute
         #      routine, exact-key memo, root glue) vs TaffyTree::compute_layout_with_measure, every node's unrounded layout after every pass
         from . import _taffytree
         _taffytree.tree_k(rep, 'C06', binp, seed + 6262, 1500 if escalate else 300, family=2)
